@@ -468,8 +468,10 @@ func (x *exec) step(st *State, fr *Frame, b *ssa.BasicBlock, ins ssa.Instruction
 		ln := asInt64(e, x.val(st, fr, ins.Len))
 		cp := asInt64(e, x.val(st, fr, ins.Cap))
 		x.safe(st, ins, "makeslice", smt.And(smt.BVCmp("bvsle", zero64, ln), smt.BVCmp("bvsle", ln, cp)))
-		// running out of memory is not modelled: an allocation of more than 2^56 elements does not return
-		st.assume(smt.BVCmp("bvsle", cp, smt.BVLit(1<<56, 64)))
+		// "makeslice: len out of range" also fires when the request exceeds the address-space limit of the allocator
+		// (2^48 bytes on the 64-bit platforms this library targets); running out of real memory below that limit is not
+		// modelled
+		x.safe(st, ins, "makeslice-size", smt.BVCmp("bvsle", cp, smt.BVLit(uint64(1)<<47, 64)))
 		r := e.newRef(st, "mk")
 		x.zeroMem(st, r, types.Unalias(ins.Type()).Underlying().(*types.Slice).Elem())
 		st.regs[ins] = Value{T: ins.Type(), L: []smt.Term{r, zero64, ln, cp}}
